@@ -62,3 +62,58 @@ func ComboMenu(w *World) []Action {
 		V2Revise("pay"), V2Revise("keys"), V2Renew("partial"),
 	}
 }
+
+func mergedSetup() []Action {
+	return []Action{
+		// the two contracts of a version differ in everything a rule looks at: amounts (salt), file size and root,
+		// proof height / window (overlapping, so that both can be proven - or one proven and one expired - in one block)
+		Seq("setup(2 v1 + 2 v2 contracts)", V1FormSalted(1, 2, 100, 1), V1FormSalted(2, 2, 10, 2), V2FormSalted(1, 2, 100, 1), V2FormSalted(2, 2, 10, 2)),
+		Seq("setup(2 v1 contracts)", V1FormSalted(1, 2, 100, 1), V1FormSalted(2, 2, 10, 2)),
+		Seq("setup(2 v2 contracts)", V2FormSalted(1, 2, 100, 1), V2FormSalted(2, 2, 10, 2)),
+	}
+}
+
+func mergedBase() (v1, v2 []Action) {
+	return []Action{V1Pay(true, 2), V1SF(true), V1Form(1, 2, 100), V1Revise("pay"), V1Proof(false), V1Foundation()},
+		[]Action{V2Pay(AddrV2, true, 2), V2Pay(AddrACS, false, 1), V2SF(true), V2Form(1, 2, 100), V2Revise("pay"), V2Renew("partial"), V2Proof(), V2Expire(), V2Attest(), V2Foundation(false)}
+}
+
+// MergedMenu serves "transaction combinatorics" models (K = 1): while the ledger holds no contract it offers ONE setup
+// block (two v1 and two v2 contracts, where the era allows); afterwards every ordered pair of same-version actions
+// merged into ONE transaction: two inputs, two contracts, two revisions, two storage proofs, a proof and an expiration,
+// a renewal and a payment, ... - the per-transaction loops of validation and application with more than one element
+// and with elements of several kinds.
+func MergedMenu(w *World) []Action {
+	if len(w.Ref.Live(KFC))+len(w.Ref.Live(KV2FC)) == 0 {
+		return mergedSetup()
+	}
+	var out []Action
+	v1, v2 := mergedBase()
+	for _, set := range [][]Action{v1, v2} {
+		for _, a := range set {
+			for _, b := range set {
+				out = append(out, Merge(a, b))
+			}
+		}
+	}
+	return out
+}
+
+// MergedMenu3 adds every ordered triple (thorough tiers).
+func MergedMenu3(w *World) []Action {
+	out := MergedMenu(w)
+	if len(w.Ref.Live(KFC))+len(w.Ref.Live(KV2FC)) == 0 {
+		return out
+	}
+	v1, v2 := mergedBase()
+	for _, set := range [][]Action{v1, v2} {
+		for _, a := range set {
+			for _, b := range set {
+				for _, c := range set {
+					out = append(out, Merge(Merge(a, b), c))
+				}
+			}
+		}
+	}
+	return out
+}
